@@ -45,6 +45,9 @@ var unsupportedSchemas = []string{
 }
 
 func (p c02) Run(c *fw.Case) {
+	if c.Idx%6 == 5 {
+		failedCalls(c) // call history: failed calls before the case must leave nothing behind
+	}
 	switch k := c.Idx % 10; {
 	case k < 6:
 		p.local(c)
